@@ -303,7 +303,11 @@ func (p *wkbParser) parseMultiPoint(ctype CoordinatesType) (MultiPoint, error) {
 	if uint64(n)*5 > uint64(len(p.body)) {
 		return MultiPoint{}, wkbSyntaxError{"unexpected EOF"}
 	}
-	pts := make([]Point, n)
+	// The children are appended one by one rather than the slice being sized
+	// from the count up front: a child is parsed in full before its type is
+	// checked, so headers can be nested, and sizing every level from its
+	// count would reserve memory that is quadratic in the length of the input.
+	var pts []Point
 	for i := uint32(0); i < n; i++ {
 		geom, err := p.inner()
 		if err != nil {
@@ -312,7 +316,7 @@ func (p *wkbParser) parseMultiPoint(ctype CoordinatesType) (MultiPoint, error) {
 		if !geom.IsPoint() {
 			return MultiPoint{}, wkbSyntaxError{"MultiPoint contains non-Point element"}
 		}
-		pts[i] = geom.MustAsPoint()
+		pts = append(pts, geom.MustAsPoint())
 	}
 	return NewMultiPoint(pts), nil
 }
@@ -330,7 +334,11 @@ func (p *wkbParser) parseMultiLineString(ctype CoordinatesType) (MultiLineString
 	if uint64(n)*5 > uint64(len(p.body)) {
 		return MultiLineString{}, wkbSyntaxError{"unexpected EOF"}
 	}
-	lss := make([]LineString, n)
+	// The children are appended one by one rather than the slice being sized
+	// from the count up front: a child is parsed in full before its type is
+	// checked, so headers can be nested, and sizing every level from its
+	// count would reserve memory that is quadratic in the length of the input.
+	var lss []LineString
 	for i := uint32(0); i < n; i++ {
 		geom, err := p.inner()
 		if err != nil {
@@ -339,7 +347,7 @@ func (p *wkbParser) parseMultiLineString(ctype CoordinatesType) (MultiLineString
 		if !geom.IsLineString() {
 			return MultiLineString{}, wkbSyntaxError{"MultiLineString contains non-LineString element"}
 		}
-		lss[i] = geom.MustAsLineString()
+		lss = append(lss, geom.MustAsLineString())
 	}
 	return NewMultiLineString(lss), nil
 }
@@ -357,7 +365,11 @@ func (p *wkbParser) parseMultiPolygon(ctype CoordinatesType) (MultiPolygon, erro
 	if uint64(n)*5 > uint64(len(p.body)) {
 		return MultiPolygon{}, wkbSyntaxError{"unexpected EOF"}
 	}
-	polys := make([]Polygon, n)
+	// The children are appended one by one rather than the slice being sized
+	// from the count up front: a child is parsed in full before its type is
+	// checked, so headers can be nested, and sizing every level from its
+	// count would reserve memory that is quadratic in the length of the input.
+	var polys []Polygon
 	for i := uint32(0); i < n; i++ {
 		geom, err := p.inner()
 		if err != nil {
@@ -366,7 +378,7 @@ func (p *wkbParser) parseMultiPolygon(ctype CoordinatesType) (MultiPolygon, erro
 		if !geom.IsPolygon() {
 			return MultiPolygon{}, wkbSyntaxError{"MultiPolygon contains non-Polygon element"}
 		}
-		polys[i] = geom.MustAsPolygon()
+		polys = append(polys, geom.MustAsPolygon())
 	}
 	return NewMultiPolygon(polys), nil
 }
